@@ -3,7 +3,7 @@ package main
 // C20 — shared instances are race-free and isolated: no hidden writes to global state (DESIGN §5 C20).
 
 var c20ParamSliceAllow = []allowSite{
-	{"http.ConcatenateJSON", "first[len(first) - 1]", "append-style byte-slice builder: the result reuses and extends `first` exactly like append(first, ...) would; the argument is consumed by contract and is not a shared instance (no in-module caller)"},
+	{"http.ConcatenateJSON", "first[(len(first) - 1)]", "append-style byte-slice builder: the result reuses and extends `first` exactly like append(first, ...) would; the argument is consumed by contract and is not a shared instance (no in-module caller)"},
 }
 
 func init() {
